@@ -14,7 +14,10 @@ ASSUMPTIONS = [
     "on the engine model's definitions (Engine/OrderIndep.v, Data/AssocOrder.v)",
     "tie to the code: each case is run twice in one process, in 4 fresh processes (fresh SipHash keys), in a debug and "
     "in a release build; all transcripts and canonical save dumps must be identical, and equal to the engine model's "
-    "transcript (tools/engine.py) where the model supports the script",
+    "transcript (tools/engine.py) where the model supports the script; programs whose LISTs share item names and use "
+    "them bare (resolved per Story instance by the bare-name table of ListDefinitionsOrigin::new: the last list in "
+    "listDefs order wins, which the engine model implements) are also run as several more Story instances in one "
+    "process, their globals read back by get_variable",
     "compiler clause: EXPLORATION ONLY (the compiler is not modelled): every source (the runtime cases, corpus sources "
     "incl. INCLUDE ones, tools/gen_decls.py programs that fill every table the compiler keeps — CONSTs defined from "
     "each other several levels deep and declared in every order / place, VARs, LISTs, knots, stitches, labels, "
@@ -69,6 +72,143 @@ def list_program(rng, k):
     src += body + ["-> END"]
     script = [["CONT"] for _ in range(len(lines))] + [["SHOWSAVE"]]
     return dict(id=f"list{k}", ink="\n".join(src) + "\n", script=script, seed=rng.randint(0, 99), kind="list")
+
+
+# ---- item names declared by SEVERAL lists ------------------------------------------------------------------------
+# The compiler accepts a bare item name that several LISTs declare and emits a plain {"VAR?": name}; the runtime
+# resolves it through the bare-name table ListDefinitionsOrigin::new builds while loading (the LAST list in
+# listDefs = declaration order that has the item wins).  That table is per Story instance, so which list the name
+# denotes must be the same in every Story and every process.  The item's text is the same for every holder; only
+# origin- / value-sensitive sites tell them apart, so each output line observes the name through such a site and
+# the script reads the globals back through get_variable and the save dump.
+SHARED_LIST_NAMES = ["door", "shop", "Zed", "attic", "B", "b", "_k", "L10", "L2", "mid"]
+SHARED_ITEM_NAMES = ["open", "closed", "locked", "ajar", "lit", "dark"]
+SHARED_TAGS = ("NAME", "VALOF", "ALLOF", "INVOF", "EQQ", "HASQ", "STEP", "PICK", "VIAFN", "VIAREF", "LIT", "COND",
+               "RANGEOF", "MINMAX", "VARS")
+
+
+def shared_item_decls(rng):
+    """[(list, [(item, value)])]: 2-4 lists in random name order over one small item pool; every list takes the
+    `hot` item (declared by all of them) at a different position / value, the other items collide at random"""
+    names = rng.sample(SHARED_LIST_NAMES, rng.choice([2, 2, 3, 4]))
+    pool = rng.sample(SHARED_ITEM_NAMES, rng.randint(3, 5))
+    hot = pool[0]
+    decls, base = [], 0
+    for ln in names:
+        its = [hot] + rng.sample(pool[1:], rng.randint(1, min(3, len(pool) - 1)))
+        rng.shuffle(its)
+        val = base + rng.choice([0, 0, 1, 3])
+        out = []
+        for x in its:
+            val += 1 if rng.random() < 0.8 else 2
+            out.append((x, val))
+        base = val if rng.random() < 0.7 else 0          # mostly disjoint value ranges: LIST_VALUE names the holder
+        decls.append((ln, out))
+    return decls, hot
+
+
+def shared_item_program(rng, k):
+    """a program over lists sharing item names that refers to the shared names BARE: as initial values of globals,
+    in list literals, as operands of LIST_VALUE / LIST_ALL / LIST_INVERT / == / ? / + - int / LIST_RANDOM /
+    LIST_RANGE / LIST_MIN / LIST_MAX, as arguments (by value, by ref), in conditions and in a choice; one site per
+    output line, the first word names it; globals read back by GETVAR, whole state by SHOWSAVE"""
+    decls, hot = shared_item_decls(rng)
+    src = []
+    for ln, its in decls:
+        shown, nxt = [], 1
+        for x, v in its:
+            shown.append(x if v == nxt else f"{x} = {v}")
+            nxt = v + 1
+        src.append(f"LIST {ln} = " + ", ".join(shown))
+    holders = {}
+    for ln, its in decls:
+        for x, _ in its:
+            holders.setdefault(x, []).append(ln)
+    shared = sorted(x for x, h in holders.items() if len(h) > 1)
+    every = sorted(holders)
+    full = [f"{ln}.{x}" for ln, its in decls for x, _ in its]
+
+    def amb():                     # a bare name several lists declare
+        return hot if rng.random() < 0.5 else rng.choice(shared)
+
+    def name():
+        r = rng.random()
+        return amb() if r < 0.7 else rng.choice(every) if r < 0.85 else rng.choice(full)
+
+    def qual(x):                   # the same item name, qualified by one of its holders
+        return f"{rng.choice(holders[x])}.{x}"
+
+    def operand():
+        return rng.choice(["s", "t", amb(), amb(), name()])
+
+    def lit():
+        return "(" + ", ".join(sorted({name() for _ in range(rng.randint(2, 3))})) + ")"
+
+    src += [f"VAR s = {amb()}", f"VAR t = {rng.choice([lit(), name(), '()'])}", "VAR n = 0"]
+    if rng.random() < 0.6:
+        src.append(f"~ SEED_RANDOM({rng.randint(0, 1000)})")
+
+    def line():
+        x = amb()
+        return rng.choice([
+            lambda: f"NAME {{{x}}} {{LIST_VALUE({x})}} {{LIST_COUNT(LIST_ALL({x}))}}",
+            lambda: f"VALOF {{LIST_VALUE({operand()})}} {{LIST_VALUE({x})}}",
+            lambda: f"ALLOF {{LIST_ALL({operand()})}}",
+            lambda: f"INVOF {{LIST_INVERT({operand()})}}",
+            lambda: f"EQQ {{{operand()} == {qual(x)}}} {{{x} != {qual(x)}}} {{{x} == {x}}}",
+            lambda: f"HASQ {{LIST_ALL({x}) ? {qual(rng.choice(every))}}} {{s ? {qual(x)}}} {{t !? {x}}}",
+            lambda: f"STEP {{{x} + 1}} {{{x} - 1}} {{LIST_VALUE({operand()} + 1)}}",
+            lambda: f"PICK {{LIST_RANDOM(LIST_ALL({x}))}} {{LIST_VALUE(LIST_RANDOM(LIST_ALL({operand()})))}}",
+            lambda: f"VIAFN {{LIST_VALUE(same({x}))}} {{LIST_ALL(same({operand()}))}}",
+            lambda: f"VIAREF {{put(t, {x})}} {{LIST_ALL(t)}} {{LIST_VALUE(t)}}",
+            lambda: f"LIT {{LIST_VALUE({lit()})}} {{LIST_ALL({lit()})}} {{LIST_COUNT({lit()})}}",
+            lambda: f"COND {{{x} == {qual(x)}: same|other}} {{LIST_VALUE({x}) > {rng.randint(1, 4)}: high|low}}",
+            lambda: f"RANGEOF {{LIST_RANGE(LIST_ALL({x}), {rng.randint(0, 2)}, {rng.randint(2, 6)})}}",
+            lambda: f"MINMAX {{LIST_MIN(LIST_ALL({x}))}} {{LIST_MAX(LIST_ALL({operand()}))}}",
+            lambda: "VARS {s} {LIST_VALUE(s)} {LIST_ALL(s)} / {t} {LIST_ALL(t)}",
+        ])()
+
+    body, nlines = [], rng.randint(4, 9)
+    for _ in range(nlines):
+        body.append(line())
+        r = rng.random()
+        if r < 0.25:
+            body.append(f"~ {rng.choice('st')} = {rng.choice([amb(), lit()])}")
+        elif r < 0.45:
+            body.append(f"~ {rng.choice('st')} {rng.choice(['+=', '-='])} {name()}")
+        elif r < 0.55:
+            body.append(f"~ s = LIST_ALL({amb()})")
+    src += body
+    script = [["CONT"] for _ in range(nlines)]
+    if rng.random() < 0.5:         # the name in a choice condition and a choice text
+        x = amb()
+        src += [f"* {{LIST_ALL({x}) ? {qual(x)}}} [take {{LIST_VALUE({x})}}]", f"  ~ t = {amb()}",
+                f"* [leave {{LIST_ALL({amb()})}}]", f"  ~ s = {lit()}",
+                "- VARS {s} {LIST_VALUE(s)} / {t} {LIST_ALL(t)}"]
+        script += [["CONT"], ["CHOOSE", 0], ["CONT_MAX"]]
+    src += ["-> END", "=== function same(x) ===", "~ return x", "=== function put(ref l, x) ===", "~ l += x",
+            "~ return LIST_VALUE(x)"]
+    script += [["GETVAR", "s"], ["GETVAR", "t"], ["SHOWSAVE"]]
+    return dict(id=f"shared{k}", ink="\n".join(src) + "\n", script=script, seed=rng.randint(0, 99), kind="shared")
+
+
+# minimised forms of demonstrated divergences of the class (always run; the generator is the quantifier)
+SHARED_REGRESSION = [
+    ("two-holders", "LIST door = locked, open\nLIST shop = open, closed\nVAR s = open\nVAR t = ()\n"
+                    "NAME {s} {LIST_VALUE(s)}\nALLOF {LIST_ALL(s)}\nEQQ {s == shop.open}\n-> END\n",
+     [["CONT"], ["CONT"], ["CONT"], ["GETVAR", "s"], ["SHOWSAVE"]]),
+    ("bare-name-only-in-content", "LIST b = x, y\nLIST B = y, x\nLIST _a = x\nVAR s = ()\nVAR t = ()\n"
+                                  "VALOF {LIST_VALUE(y)} {LIST_VALUE(x)}\n~ t += x\nALLOF {LIST_ALL(t)}\n-> END\n",
+     [["CONT"], ["CONT"], ["GETVAR", "t"], ["SHOWSAVE"]]),
+]
+
+
+MORE_INSTANCES = 4
+
+
+def shared_cases(rng, n):
+    out = [dict(id="shared:" + name, ink=ink, script=script, seed=7, kind="shared") for name, ink, script in SHARED_REGRESSION]
+    return out + [shared_item_program(rng, k) for k in range(n)]
 
 
 FLOW_INK = """LIST L = a, b, c
@@ -175,6 +315,8 @@ def site_of(case, a, b):
             m = re.search(r'=> ok\("([A-Z]+) ', la) or re.search(r'text="([A-Z]+) ', la)
             if m and m.group(1) in SITE_TAGS:
                 return SITE_TAGS[m.group(1)], dict(first=la[:300], second=lb[:300])
+            if case.get("kind") == "shared" or str(case.get("id", "")).startswith("shared") or (m and m.group(1) in SHARED_TAGS):
+                return "bare_item_name_table", dict(first=la[:300], second=lb[:300])
             if "SHOWSAVE" in la:
                 return "save", dict(first=la[:300], second=lb[:300])
             return "unknown", dict(first=la[:300], second=lb[:300])
@@ -201,6 +343,7 @@ def run(ctx):
     cases += corpus_cases(ctx, 10 if q else 121)
     dcases, dsrcs = decl_programs(ctx, 36 if q else 400)
     cases += dcases[:10 if q else 100]
+    cases += shared_cases(ctx.rng, 16 if q else 200)
 
     findings, nondet = {}, set()
 
@@ -263,13 +406,27 @@ def run(ctx):
     first = vlib.run_inkdrive(twice, exe_d, shards=1 if len(cases) < 40 else 4)
     runs.append(("debug/in-process-1", first[:len(cases)]))
     runs.append(("debug/in-process-2", first[len(cases):]))
+    # a table built per Story instance (the bare item names): several more Story instances of the same program in
+    # ONE process (a single shard), next to the fresh processes below
+    sh_idx = [i for i, c in enumerate(cases) if c["kind"] == "shared"]
+    more = vlib.run_inkdrive([dict(strip(cases[i]), id=f"{cases[i]['id']}#{r + 3}") for r in range(MORE_INSTANCES)
+                              for i in sh_idx], exe_d, shards=1) if sh_idx else []
+    more_runs = []
+    for r in range(MORE_INSTANCES):
+        sparse = [None] * len(cases)
+        for i, res in zip(sh_idx, more[r * len(sh_idx):(r + 1) * len(sh_idx)]):
+            sparse[i] = res
+        more_runs.append((f"debug/same-process-instance-{r + 1}", sparse))
     for k in range(2):
         runs.append((f"debug/process-{k}", vlib.run_inkdrive([strip(c) for c in cases], exe_d)))
         runs.append((f"release/process-{k}", vlib.run_inkdrive([strip(c) for c in cases], exe_r)))
+    runs += more_runs           # (runs[2] stays debug/process-0: the model cross-check below reads it)
     n_eval = 0
     for i, c in enumerate(cases):
         base_name, base = runs[0][0], transcript(runs[0][1][i])
         for name, res in runs[1:]:
+            if res[i] is None:
+                continue
             n_eval += 1
             t = transcript(res[i])
             if t != base:
@@ -286,13 +443,15 @@ def run(ctx):
     try:
         import engine
         mcases, other = [], {}
-        for i, c in enumerate(cases):
-            if i in nondet or c["kind"] not in ("list", "flow"):
-                continue
-            mc = strip(c)
-            mc["script"] = [op for op in mc.get("script", []) if op and op[0] not in engine.UNSUPPORTED]
-            mcases.append(mc)
-        mcases = mcases[:12 if q else 120]
+        for kinds, cap in ((("list", "flow"), 12 if q else 120), (("shared",), 8 if q else 100)):
+            part = []
+            for i, c in enumerate(cases):
+                if i in nondet or c["kind"] not in kinds:
+                    continue
+                mc = strip(c)
+                mc["script"] = [op for op in mc.get("script", []) if op and op[0] not in engine.UNSUPPORTED]
+                part.append(mc)
+            mcases += part[:cap]
         by_src = {x["src"]: m for x, m in zip(srcs, mat)}
         for i, c in enumerate(cases):
             if c["kind"] != "decl" or i in nondet or len(other) >= (4 if q else 40):
@@ -332,8 +491,11 @@ def run(ctx):
         evaluations=n_eval + n_compiles + n_model, distinct_nontrivial=len(cases) + len(srcs),
         rule="programs over three LIST declarations with equal item values across and inside lists (one order-sensitive "
              "site per output line: LIST_MAX/MIN/VALUE, list printing, LIST_RANDOM, list-from-int, list +- int, "
-             "LIST_RANGE, comparisons, LIST_ALL/INVERT, RANDOM, shuffles, 2-25 globals), a multi-flow program with "
-             "switches, generated programs (tools/gen_ink.py), declaration-table programs (tools/gen_decls.py) and corpus "
+             "LIST_RANGE, comparisons, LIST_ALL/INVERT, RANDOM, shuffles, 2-25 globals), programs over 2-4 LISTs that "
+             "share item names and use the shared names bare (LIST_VALUE/ALL/INVERT/RANDOM/RANGE/MIN/MAX, == / ? against "
+             "qualified items, +- int, list literals, function arguments by value and by ref, conditions, a choice; "
+             f"globals read back by get_variable; {MORE_INSTANCES} more Story instances in one process), a multi-flow "
+             "program with switches, generated programs (tools/gen_ink.py), declaration-table programs (tools/gen_decls.py) and corpus "
              "stories explored to depth 2; each case: 2 runs in "
              "one process + 2 fresh debug processes + 2 fresh release processes, transcripts and SHOWSAVE dumps compared; "
              f"every source (+ corpus sources with INCLUDEs, + programs with a generated CONST DAG in front) compiled "
